@@ -124,6 +124,34 @@ def coq_makefile() -> None:
             raise Broken("coq_makefile failed", out + err)
 
 
+def gen_closure(targets: Sequence[str]) -> Optional[List[str]]:
+    """The coq/gen/*.v files the given .vo targets transitively depend on (from coqdep), or
+    None when it cannot be determined (then everything is regenerated)."""
+    srcs = [s for s in coq_sources() if os.path.exists(os.path.join(COQ, s))]
+    rc, out, err = run(["coqdep"] + COQ_FLAGS + srcs, cwd=COQ, timeout=120)
+    if rc != 0:
+        return None
+    deps: Dict[str, List[str]] = {}
+    for line in out.splitlines():
+        if ":" not in line:
+            continue
+        lhs, rhs = line.split(":", 1)
+        ds = [d for d in rhs.split() if d.endswith(".vo")]
+        for t in lhs.split():
+            if t.endswith(".vo"):
+                deps[t] = ds
+    seen, todo = set(), [t for t in targets]
+    while todo:
+        t = todo.pop()
+        if t in seen:
+            continue
+        seen.add(t)
+        if t not in deps and not t.startswith("gen/"):
+            return None
+        todo.extend(deps.get(t, []))
+    return sorted(os.path.basename(t)[:-1] for t in seen if t.startswith("gen/"))
+
+
 def coq_build(targets: Sequence[str], timeout: int = 1500) -> Tuple[bool, str]:
     """make the given .vo targets (full .vo build, never -vos).  Returns (ok, log)."""
     coq_makefile()
@@ -262,12 +290,18 @@ class Check:
         """Regenerate gen/*.v, build the closure of props/<prop_file>, check the grep gate
         and the Print Assumptions output.  Raises Broken when anything fails."""
         from translate import regenerate_all
-        self.coverage["translated"] = regenerate_all()
+        vo = f"props/{prop_file}o"
+        targets = [vo, "theories/Eqb.vo"] + list(extra_targets) + list(getattr(self, "_model_vo", ()))
+        coq_makefile()
+        needed = gen_closure(targets)
+        # only the translations this property's Coq closure depends on are (re)generated and
+        # can break it; a change elsewhere in /repo must not raise an alarm here
+        self.coverage["translated"] = regenerate_all(only=needed)
+        self.coverage["tie"]["gen_files"] = needed if needed is not None else "all"
         bad = grep_gate()
         if bad:
             raise Broken("forbidden construct in the Coq development", "\n".join(bad))
-        vo = f"props/{prop_file}o"
-        ok, log = coq_build([vo, "theories/Eqb.vo"] + list(extra_targets) + list(getattr(self, "_model_vo", ())))
+        ok, log = coq_build(targets)
         if not ok:
             m = re.search(r'File "\./([^"]+)", line (\d+)', log)
             where = f"{m.group(1)}:{m.group(2)}" if m else "?"
